@@ -1,8 +1,9 @@
 """C14: the version 1.1 bytecode format is stable.  Recorded corpus + independent decoder on fresh dumps."""
-import glob, json, os, random
+import glob, json, os, random, re
 from .core import F, casehash, VERIF
 from .p_dumpload import gen_cases, parse_parts
 from . import interp
+from .p_lang import err_class
 
 
 def check_C14(ctx):
@@ -33,9 +34,17 @@ def check_C14(ctx):
         e = r["exec"]
         got = dict(Class=e["Class"], Err=e["Err"], Out=e["Out"], Log=e["Log"], Blocks=e["Blocks"], Binding=e["Binding"])
         if got != rec["expect"]:
-            diff = [k for k in got if got[k] != rec["expect"][k]]
-            ctx.violation("recorded file executes differently (%s)" % ",".join(diff), case, impl=got, model=rec["expect"],
-                          theorem="C14_corpus", key="corpus-exec:" + diff[0])
+            # the WORDING of runtime errors / warnings is not part of the file format: only their kind and position are
+            proj = lambda o: dict(Class=o["Class"], Err=(err_class(o["Err"]), re.findall(r"line \d+:\d+", o["Err"])), Out=o["Out"],
+                                  Log=interp.diag_proj(bytes.fromhex(o["Log"])), Blocks=o["Blocks"], Binding=o["Binding"])
+            pg, pe = proj(got), proj(rec["expect"])
+            diff = [k for k in pg if pg[k] != pe[k]]
+            if diff:
+                ctx.violation("recorded file executes differently (%s)" % ",".join(diff), case, impl=got, model=rec["expect"],
+                              theorem="C14_corpus", key="corpus-exec:" + diff[0])
+            else:
+                ctx.broken.append(("correspondence", "corpus: message wording of %s differs from the recording" % c["id"],
+                                   "now %r, recorded %r" % ((got["Err"] or got["Log"])[:120], (rec["expect"]["Err"] or rec["expect"]["Log"])[:120])))
     for rec in recs:
         if mres.get(rec["id"]) != rec["model"]:
             ctx.broken.append(("correspondence", "corpus: the model's reading of %s changed" % rec["id"],
